@@ -10,6 +10,7 @@ freedom so that the rules see one spelling:
 * ``a < b < c`` -> ``a < b and b < c`` when ``b`` is a name, an attribute chain or a constant
 * ``not (a == b)`` -> ``a != b`` (and the other single comparisons), ``not not c`` -> ``c``, ``not (A and B)`` -> ``not A or not B``
 * ``a, b = x, y`` -> ``a = x; b = y`` when no right-hand side mentions a target
+* ``if A: return X`` followed by ``if B: return X`` -> ``if A or B: return X`` (same single exit statement)
 * ``X if not c else Y`` -> ``Y if c else X``;  ``if not c: A else: B`` -> ``if c: B else: A`` (no elif chain); the same for the
   negative comparisons ``!=``, ``not in``, ``is not`` and for ``a <= b`` (written ``b < a`` with the branches exchanged)
 * ``range(0, n)`` -> ``range(n)``;  ``1 + i`` -> ``i + 1`` (integer constant operand of + and * goes to the right)
@@ -188,8 +189,24 @@ class Canon(ast.NodeTransformer):
                 return [ast.copy_location(ast.Assign(targets=[ast.copy_location(ast.Name(id=t.id, ctx=ast.Store()), t)], value=v), st) for t, v in zip(st.targets[0].elts, st.value.elts)]
         return [st]
 
+    @staticmethod
+    def _merge_same_exit_ifs(stmts: List[ast.stmt]) -> List[ast.stmt]:
+        """if A: <exit X>  \n  if B: <exit X>   ->   if A or B: <exit X>    (consecutive ifs without else whose bodies are the same single
+        return / raise / continue / break)"""
+        out: List[ast.stmt] = []
+        for st in stmts:
+            prev = out[-1] if out else None
+            if isinstance(st, ast.If) and not st.orelse and len(st.body) == 1 and isinstance(st.body[0], (ast.Return, ast.Raise, ast.Continue, ast.Break)) \
+                    and isinstance(prev, ast.If) and not prev.orelse and len(prev.body) == 1 and ast.dump(prev.body[0]) == ast.dump(st.body[0]):
+                vals = (list(prev.test.values) if isinstance(prev.test, ast.BoolOp) and isinstance(prev.test.op, ast.Or) else [prev.test]) + \
+                       (list(st.test.values) if isinstance(st.test, ast.BoolOp) and isinstance(st.test.op, ast.Or) else [st.test])
+                out[-1] = ast.copy_location(ast.If(test=ast.copy_location(ast.BoolOp(op=ast.Or(), values=vals), prev.test), body=prev.body, orelse=[]), prev)
+            else:
+                out.append(st)
+        return out
+
     def _stmts(self, stmts: List[ast.stmt]) -> List[ast.stmt]:
-        stmts = [x for st in stmts for x in self._split_tuple_assign(self._yield_loop(st))]
+        stmts = self._merge_same_exit_ifs([x for st in stmts for x in self._split_tuple_assign(self._yield_loop(st))])
         out: List[ast.stmt] = []
         i = 0
         while i < len(stmts):
@@ -326,9 +343,74 @@ class Canon(ast.NodeTransformer):
     visit_With = visit_Try = visit_ExceptHandler = _body_holder
 
 
-def canonicalise(tree: ast.Module) -> ast.Module:
+def _literal_value(n: ast.AST) -> bool:
+    """immutable literal: number / string / tuple of such / frozenset(..) or Perm(..) of such"""
+    if isinstance(n, ast.Constant) and isinstance(n.value, (int, float, str, bytes, bool, type(None))):
+        return True
+    if isinstance(n, ast.UnaryOp) and isinstance(n.op, ast.USub) and isinstance(n.operand, ast.Constant):
+        return True
+    if isinstance(n, ast.Tuple):
+        return all(_literal_value(e) for e in n.elts)
+    if isinstance(n, ast.Call) and isinstance(n.func, ast.Name) and n.func.id in ("Perm", "frozenset", "tuple") and len(n.args) == 1 and not n.keywords:
+        a = n.args[0]
+        return _literal_value(a) or (isinstance(a, (ast.List, ast.Set)) and all(_literal_value(e) for e in a.elts))
+    return False
+
+
+class _InlineNewConstants(ast.NodeTransformer):
+    """A module-level name that the reviewed tree did not have, bound exactly once to an immutable literal, is a name somebody
+    gave to a literal: inside functions and class bodies the literal is put back (the rules read `Perm((0, 2, 1))`, not the name)."""
+
+    def __init__(self, table):
+        self.table = table
+        self.depth = 0
+
+    def _scoped(self, node):
+        self.depth += 1
+        self.generic_visit(node)
+        self.depth -= 1
+        return node
+
+    visit_FunctionDef = visit_AsyncFunctionDef = visit_ClassDef = visit_Lambda = _scoped
+
+    def visit_Name(self, node: ast.Name):
+        if self.depth and isinstance(node.ctx, ast.Load) and node.id in self.table:
+            return ast.copy_location(copy.deepcopy(self.table[node.id]), node)
+        return node
+
+
+def _new_literal_constants(tree: ast.Module, module_name):
+    from .shapes import reviewed_module_names
+
+    known = reviewed_module_names(module_name) if module_name else None
+    if known is None:
+        return {}
+    binds: dict = {}
+    stores: dict = {}
+    for st in tree.body:
+        tgt = None
+        if isinstance(st, ast.Assign) and len(st.targets) == 1 and isinstance(st.targets[0], ast.Name):
+            tgt, val = st.targets[0].id, st.value
+        elif isinstance(st, ast.AnnAssign) and isinstance(st.target, ast.Name) and st.value is not None:
+            tgt, val = st.target.id, st.value
+        if tgt is not None:
+            stores[tgt] = stores.get(tgt, 0) + 1
+            binds[tgt] = val
+    for n in ast.walk(tree):
+        if isinstance(n, ast.Name) and isinstance(n.ctx, (ast.Store, ast.Del)) and n.id in binds:
+            stores[n.id] = stores.get(n.id, 0) + (0 if any(n is t for st in tree.body for t in ast.walk(st) if isinstance(st, (ast.Assign, ast.AnnAssign)) and st in tree.body) else 1)
+        if isinstance(n, (ast.Global,)):
+            for nm in n.names:
+                stores[nm] = 99
+    return {k: v for k, v in binds.items() if k not in known and stores.get(k, 0) == 1 and _literal_value(v)}
+
+
+def canonicalise(tree: ast.Module, module_name=None) -> ast.Module:
     if os.environ.get("SA_NO_CANON"):
         return tree
+    table = _new_literal_constants(tree, module_name)
+    if table:
+        tree = _InlineNewConstants(table).visit(tree)
     new = Canon().visit(tree)
     ast.fix_missing_locations(new)
     return new
